@@ -501,6 +501,7 @@ def main(tier, seed, replay=None):
             camp.fail(b, rec["case"], d)
         camp.case(rec["case"], True)
         camp.min_nontrivial = 0
+        camp.write_evidence = False
         return camp.finish()
     camp.run_witnesses(replay_case)
     if tier == "thorough":
